@@ -40,9 +40,6 @@ structure JCase where
   structural : List Nat := []                          -- tasks created / deleted concurrently or later
   laterUpd : List (Nat × String) := []                 -- (task, property) updated again after the concurrent section
 
-def afterPrefix (s : String) (p : String) : Option String :=
-  if s.startsWith p then some (s.drop p.length).toString else none
-
 def parseKV (tok : String) (k : String) : Option Nat :=
   (afterPrefix tok (k ++ "=")).bind String.toNat?
 
